@@ -9,7 +9,7 @@ import detsim
 from common import Ctx
 
 PROP = "C13"
-LEAN_MODULE = "TsProofs.Properties.C13"
+LEAN_MODULE = "TsProofs.Properties.C13Concurrent"   # imports TsProofs.Properties.C13
 THEOREMS = [
     "Ts.Commit.C13_commit_after_all_arrive",
     "Ts.Commit.C13_commit_after_all_arrive_before",
@@ -19,6 +19,10 @@ THEOREMS = [
     "Ts.Commit.C13_histories",
     "Ts.Commit.C13_witness_stale_success",
     "Ts.Commit.C13_witness_stale_error",
+    # overlapping pending snapshots (TsModel/Concurrent.lean)
+    "Ts.Commit.C13_concurrent_independent",
+    "Ts.Commit.C13_concurrent_commit_last",
+    "Ts.Commit.astep_frame",
 ]
 BUDGET_S = (150, 900)
 RULE = ("The real Snapshot.async_take + PendingSnapshot._complete_snapshot threads run for W in {1,2,3,4} ranks under the "
